@@ -80,6 +80,7 @@ def run(chk, replay=None):
     if not quick:
         chk.mc(vf.tlc_mc("Roster.tla", "RosterBig.cfg", workers=TLC_WORKERS, tag="RosterBig"), "RosterBig.cfg")
     # 2. behaviours
+    seeded = set()
     if replay:
         behs = [b for b in vf.read_ndjson(replay) if "steps" in b]
     else:
@@ -105,6 +106,7 @@ def run(chk, replay=None):
             tour2 = []
         behs = tfields + tour + allp + sim + tour2
         behs = vf.maximal_behaviours(behs)
+        seeded = {vf._canon(b) for b in sim}      # random walks: their histories depend on the seed
         chk.cov["generation"] = gen
     chk.cov["authorised_updates_by_changed_field"] = _field_update_coverage(behs)
     vf.write_ndjson(chk.path("behaviours.ndjson"), behs)
@@ -146,8 +148,9 @@ def run(chk, replay=None):
         start[c] = pos
         pos += len(lines)
     seen = set()
-    # shortest histories first: they come from the all-paths / tour sets and do not depend on the seed
-    for v in sorted(s["viol"], key=lambda v: (v["line"] - start[v["case"]], v["line"])):
+    def rank(v):       # histories from the tours / all-paths sets first (seed-independent), shortest first
+        return (vf._canon(behs[int(v["case"][1:]) - 1]) in seeded, v["line"] - start[v["case"]], v["line"])
+    for v in sorted(s["viol"], key=rank):
         if v["case"] in seen:
             continue
         seen.add(v["case"])
